@@ -382,9 +382,22 @@ fn concurrent_executions(run: &Run, thorough: bool) {
                 let len = cases.len();
                 // every thread walks the whole pool, from its own offset and with its own stride (odd strides are coprime to
                 // nothing in particular; two passes with different strides cover every case twice per thread)
+                // first a small pool hammered many times (what one execution leaves in a process-wide table is met again soon,
+                // by all threads), then the whole pool twice
+                let small = 512.min(len);
+                let mut order: Vec<usize> = Vec::with_capacity(small * 40 + len * 2);
+                for pass in 0..40usize {
+                    for j in 0..small {
+                        order.push((j * (2 * pass + 1) + t * 37 + pass) % small);
+                    }
+                }
                 for (pass, stride) in [(0usize, 1usize), (1, 7919)] {
                     for j in 0..len {
-                        let i = (j * stride + t * (len / threads) + pass) % len;
+                        order.push((j * stride + t * (len / threads) + pass) % len);
+                    }
+                }
+                {
+                    for i in order {
                         let c = &cases[i];
                         let got = guard(|| Covenant::from_ops(&c.0).debug_execute(&[])).ok().flatten().map(|v| RV::from_real(&v));
                         run.transition();
@@ -399,7 +412,7 @@ fn concurrent_executions(run: &Run, thorough: bool) {
         }
     });
     let w = wrong.load(std::sync::atomic::Ordering::Relaxed);
-    run.set("concurrent_executions", json!({"kind": "sampling of schedules (free-running threads), not exhaustive", "threads": threads, "distinct_programs": cases.len(), "executions": cases.len() * threads * 2, "wrong_results": w}));
+    run.set("concurrent_executions", json!({"kind": "sampling of schedules (free-running threads), not exhaustive", "threads": threads, "distinct_programs": cases.len(), "executions": (cases.len() * 2 + 512 * 40) * threads, "small_pool": {"programs": 512, "passes": 40}, "wrong_results": w}));
     if let Some((i, what)) = first.into_inner() {
         let c = &cases[i];
         run.violation(
